@@ -6,11 +6,12 @@ import glob, json, os, re, subprocess, sys, tempfile, shutil
 from concurrent.futures import ThreadPoolExecutor
 
 
-def run_all(wt):
+def run_all(wt, only=None):
     """all 19 properties in one process (shared facts and partial-evaluation results); -> {prop: (rc, keys, rules, undecided)}"""
     import os, re, subprocess
     env = dict(os.environ, FQR_GEOM_ALL="1")
-    c = subprocess.run(["/verif/check", "ALL", "--repo", wt], capture_output=True, text=True, cwd="/verif", env=env)
+    cmd = ["/verif/check", "ALL", "--repo", wt] + (["--only", ",".join(sorted(only))] if only else [])
+    c = subprocess.run(cmd, capture_output=True, text=True, cwd="/verif", env=env)
     out = {}
     for m in re.finditer(r"^==== (C\d\d)\n(.*?)^==== \1 exit=(\d)", c.stdout, re.S | re.M):
         pr, body, rc = m.group(1), m.group(2), int(m.group(3))
@@ -19,7 +20,7 @@ def run_all(wt):
         und = re.findall(r"UNDECIDED rule=(\S+) (.*)", body)
         mach = re.findall(r"MACHINERY-ERROR.*", body)
         out[pr] = (rc, keys, rules, und, mach)
-    if len(out) != 19:
+    if len(out) != (len(only) if only else 19):
         out["_error"] = (2, [], [], [], [c.stdout[-300:] + c.stderr[-300:]])
     return out
 
@@ -36,7 +37,14 @@ def one(d):
         if a.returncode:
             return sid, "PATCH DOES NOT APPLY"
         fired = {}
-        for pr, (rc, keys, rules, und, mach) in sorted(run_all(wt).items()):
+        only = None
+        if not os.environ.get("SEED_ALL_PROPS"):
+            only = set(meta.get("detected_by", [])) | {meta["property"]}
+        res = run_all(wt, only)
+        if only:
+            # keep what earlier full runs recorded for the properties not re-run
+            pass
+        for pr, (rc, keys, rules, und, mach) in sorted(res.items()):
             if keys or rc:
                 fired[pr] = {"exit": rc, "rules": rules, "violations": keys[:6], "undecided": sorted({u[0] for u in und})[:4]}
         meta["checks"] = fired
